@@ -109,7 +109,7 @@ def run(ctx):
         steps = _script_from_trace(r.trace)
         ctx.note("BlobSub_orig.cfg: TLC liveness counterexample of %d states, stimuli: %s (then every retrieval fails for ever)" % (
             len(r.trace), json.dumps(steps)))
-        scripts.append({"name": "cex_orig", "class": "cex_orig", "subs": 1, "tail": "allfail", "offer": True, "steps": steps})
+        scripts.append({"name": "cex_orig", "class": "cex_orig", "subs": 1, "tail": "allfail", "offer": True, "defer": True, "steps": steps})
         # the same history with the retrieval already running when Stop arrives
         scripts.append({"name": "cex_orig_inflight", "class": "cex_orig", "subs": 1, "tail": "allfail", "offer": False,
                         "steps": [{"a": "hdr"}, {"a": "att", "ok": False}, {"a": "stop"}]})
